@@ -62,7 +62,7 @@ def check_b1(ctx) -> None:
               f'{rel}:{init[0].lineno if init else lp.lineno}', 'price series is not lifetime long')
     i = norm(lp.target)
     paths = _scalar_paths(ctx, lp, 'Price')
-    ctx.floor('B1', len(paths), 4, 'paths through the per-year price computation')
+    ctx.floor('B1', len(paths), 1, 'paths through the per-year price computation')
 
     def atom_of(n):
         if isinstance(n, ast.Subscript) and norm(n.value) == 'PTCAddition':
@@ -88,7 +88,35 @@ def check_b1(ctx) -> None:
             else:
                 ctx.bad('B1', f'BuildPricingModel/unexpected-guard:{t[:40]}', f'{rel}:{test.lineno}',
                         f'the yearly price additionally depends on `{t}`')
-        ctx.require(esc is not None and cap is not None, 'BuildPricingModel: escalation-start / ending-price guards not found on a path')
+        if cap is None and esc is not None:
+            # accepted idiom: Price[i] = min(<escalated price>, EndPrice) instead of an if-test
+            from gxstat.symflow import expand_def
+            full = expand_def(d)
+            mins = [c for c in ast.walk(full) if isinstance(c, ast.Call) and dotted_name(c.func) in ('min', 'np.minimum') and len(c.args) == 2]
+            unc = S + ((I - Y) * Rt if esc else Rat.const(0))
+            okmin = False
+            if len(mins) == 1:
+                try:
+                    a0, a1 = (Translator(atom_of=atom_of).tr(x) for x in mins[0].args)
+                    okmin = (a0.equals(unc) and a1.equals(Eend)) or (a1.equals(unc) and a0.equals(Eend))
+                    if okmin:
+                        matom = Translator(atom_of=atom_of).tr(mins[0])
+                        okmin = val.equals(matom + Rat.atom(f'PTC[{i}]'))
+                except Unsupported:
+                    okmin = False
+            if okmin:
+                ctx.ok('B1', f'BuildPricingModel/{"escalating" if esc else "before-escalation"}/min-form/price', f'{rel}:{d.line}',
+                       'min(start + escalation, EndPrice) + PTC')
+                continue
+        if cap is None:
+            ctx.bad('B1', f'BuildPricingModel/{"escalating" if esc else "before-escalation" if esc is not None else "any-year"}/cap-not-applied',
+                    f'{rel}:{d.line}', f'on the path {cond_text(p.conds)[:80]} the price `{val.show()}` is never compared with the ending price: '
+                    f'a year\'s price can exceed the ending price (e.g. when the starting price is already above it)')
+            continue
+        if esc is None:
+            ctx.bad('B1', 'BuildPricingModel/escalation-guard-missing', f'{rel}:{d.line}',
+                    'the escalation increment is not guarded by the escalation start year on this path')
+            continue
         uncapped = S + ((I - Y) * Rt if esc else Rat.const(0))
         # the cap test compares the escalated, pre-PTC price with the ending price
         test, pol, binds = cap
